@@ -26,7 +26,7 @@ Definition v6_text (s : str) : option str :=
   end.
 
 Theorem v6_parse_shape s a p : v6_parse s = Some (a, p) ->
-  exists t addr, v6_text s = Some t /\ length t <= v6_maxlen /\ v6_addr addr = Some a /\
+  exists t addr, v6_text s = Some t /\ (length t <= v6_maxlen)%nat /\ v6_addr addr = Some a /\
     forallb (fun x => negb (N.eqb x c_slash)) addr = true /\
     ((t = addr /\ p = 128%Z) \/ (exists m, t = addr ++ c_slash :: m /\ plen6_of_digits m = Some p)).
 Proof.
